@@ -241,6 +241,7 @@ struct SubStats {
     excluded_known: BTreeMap<String, u64>,
     exhaustive: bool,
     note: Option<String>,
+    fallback_sample: Option<Value>,
 }
 
 pub struct Violation {
@@ -331,6 +332,9 @@ impl Run {
         }
         for (k, v) in local.excluded_known {
             *s.excluded_known.entry(k).or_default() += v;
+        }
+        if s.fallback_sample.is_none() {
+            s.fallback_sample = local.fallback_sample;
         }
         s.exhaustive |= local.exhaustive;
         if local.note.is_some() {
@@ -425,6 +429,9 @@ impl Run {
                                                 serde_json::to_value(&v).unwrap_or(Value::Null),
                                             );
                                         }
+                                    } else if shard == 0 && l.evaluations == 1 {
+                                        l.fallback_sample =
+                                            Some(serde_json::to_value(&v).unwrap_or(Value::Null));
                                     }
                                 }
                                 Ok(())
@@ -675,7 +682,12 @@ impl Run {
                 *excluded.entry(k.clone()).or_default() += v;
             }
             for v in s.samples.iter().take(2) {
-                samples.push(json!({"sub": name, "case": v}));
+                samples.push(json!({"sub": name, "nontrivial": true, "case": v}));
+            }
+            if s.samples.is_empty()
+                && let Some(v) = &s.fallback_sample
+            {
+                samples.push(json!({"sub": name, "nontrivial": false, "case": v}));
             }
             sub_json.insert(
                 name.clone(),
